@@ -327,6 +327,7 @@ static void xml_reporter_finish_test(TestReporter *reporter, const char *filenam
     }
 
     transfer_output_from(child_output_tmpfile, memo->printer, out);
+    fclose(child_output_tmpfile);
 
     memo->printer(out, indent(reporter));
     memo->printer(out, "</testcase>\n");
